@@ -129,6 +129,10 @@ class ModuleInfo:
     self.rel = rel
     self.src = path.read_text()
     self.tree = ast.parse(self.src, filename=str(path))
+    # helpers that are new with respect to the reference tree are substituted
+    # back into their callers (sa/inline.py), so "extract method" is invisible
+    from sa import inline
+    self.inlined_calls = inline.apply(self.tree, rel)
     self.imports = {}
     self.functions = {}
     self.classes = {}
